@@ -141,3 +141,11 @@ def flag_columns(net):
 
 def clone(net):
     return copy.deepcopy(net)
+
+
+def tight(kw):
+    """the same run with the Newton tolerances at round-off level: used to tell a difference in start values /
+    elimination order (which then shrinks to round-off) from a difference of the solved system (which stays)"""
+    k = dict(kw)
+    k.update(tol_p=1e-12, tol_m=1e-12, tol_T=1e-10, tol_res=1e-7, iter=200)
+    return k
